@@ -130,6 +130,111 @@ async def dump_ids(st, backend, uni):
     return set(uni.sym_id(i) for i in ids)
 
 
+def sql_skeleton(text):
+    """statement text with every literal replaced by a placeholder and placeholder lists collapsed"""
+    import re
+
+    out = []
+    i, n = 0, len(text)
+    while i < n:
+        ch = text[i]
+        if ch.isspace():
+            i += 1
+        elif ch == "'" or (ch in "xX" and i + 1 < n and text[i + 1] == "'"):
+            i += 1 if ch == "'" else 2
+            while i < n:
+                if text[i] == "'":
+                    if i + 1 < n and text[i + 1] == "'":
+                        i += 2
+                        continue
+                    break
+                i += 1
+            i += 1
+            out.append("?")
+        elif ch.isdigit():
+            while i < n and (text[i].isalnum() or text[i] == "."):
+                i += 1
+            out.append("?")
+        elif ch.isalpha() or ch == "_":
+            j = i
+            while j < n and (text[j].isalnum() or text[j] in "_."):
+                j += 1
+            out.append(text[i:j].upper())
+            i = j
+        elif ch == "-" and text[i:i + 2] == "--":
+            out.append("--COMMENT")
+            while i < n and text[i] != "\n":
+                i += 1
+        else:
+            out.append(ch)
+            i += 1
+    sk = " ".join(out)
+    return re.sub(r"\?( , \?)+", "?*", sk).replace("( ? )", "( ?* )")
+
+
+def py_skeleton(source):
+    """generated Python source with every constant replaced by its type name"""
+    import ast
+
+    try:
+        tree = ast.parse(source)
+    except SyntaxError:
+        return "SYNTAX-ERROR"
+    for node in ast.walk(tree):
+        if isinstance(node, ast.Constant):
+            node.value = type(node.value).__name__
+        elif isinstance(node, ast.BoolOp):
+            pass
+        elif isinstance(node, (ast.Tuple, ast.List, ast.Set)) and all(isinstance(e, ast.Constant) for e in node.elts):
+            node.elts = node.elts[:1]
+    # the clauses of the generated predicate come out of a set: order them
+    for node in ast.walk(tree):
+        if isinstance(node, ast.BoolOp):
+            node.values = sorted(node.values, key=ast.dump)
+    return ast.dump(tree)
+
+
+class StatementSpy:
+    """records the statements / generated code the storage engine is given while a REQ is answered (harness-side)"""
+
+    def __init__(self, st, backend):
+        self.st = st
+        self.backend = backend
+        self.seen = []
+
+    def __enter__(self):
+        if self.backend == "sql":
+            import sqlalchemy as sa
+
+            self._fn = lambda conn, cursor, statement, parameters, context, executemany: self.seen.append(sql_skeleton(statement)) \
+                if statement.lstrip().upper().startswith("SELECT ID, CREATED_AT") else None
+            sa.event.listen(self.st.db.sync_engine, "before_cursor_execute", self._fn)
+        else:
+            from nostr_relay.storage import kv
+
+            spy = self
+
+            def compile_(source, *a, **k):
+                if isinstance(source, str) and "def check(et)" in source:
+                    spy.seen.append(py_skeleton(source))
+                return compile(source, *a, **k)
+
+            kv.compile = compile_
+            kv.compile_match_from_query.cache_clear()
+        return self
+
+    def __exit__(self, *a):
+        if self.backend == "sql":
+            import sqlalchemy as sa
+
+            sa.event.remove(self.st.db.sync_engine, "before_cursor_execute", self._fn)
+        else:
+            from nostr_relay.storage import kv
+
+            if "compile" in kv.__dict__:
+                del kv.compile
+
+
 async def stored_answer(st, conc_filters, timeout=20):
     """the stored phase of a REQ: subscribe, collect until EOSE, unsubscribe"""
     from nostr_relay.util import ClientID
@@ -179,6 +284,9 @@ async def run_gc(st, backend):
 
         gc = KVGarbageCollector(st)
     await gc.run_once()
+
+
+spy_skeletons = False
 
 
 async def run_script(st, backend, uni, script, log_errors=None):
@@ -231,7 +339,12 @@ async def run_script(st, backend, uni, script, log_errors=None):
                 kind = "query"
             else:
                 conc = [uni.conc_filter(f) for f in fs]
-            if kind == "query":
+            skel = None
+            if kind == "query" and (spy_skeletons or os.environ.get("VERIF_SPY_SKELETONS") == "1"):
+                with StatementSpy(st, backend) as spy:
+                    evs, err = await stored_answer(st, _clone(conc))
+                skel = " || ".join(spy.seen)
+            elif kind == "query":
                 evs, err = await stored_answer(st, _clone(conc))
             else:
                 evs, err = [], None
@@ -244,7 +357,7 @@ async def run_script(st, backend, uni, script, log_errors=None):
             for e in evs:
                 s = uni.sym_event(e)
                 res.append(s if s is not None else "?" + str(getattr(e, "id", e))[:16])
-            lines.append({"a": "Query", "fs": fs, "res": res, "_err": err, "_path": kind, "_raw": op[0] == "rawquery",
+            lines.append({"a": "Query", "fs": fs, "res": res, "_err": err, "_path": kind, "_raw": op[0] == "rawquery", "_skel": skel,
                           "_conc": conc if op[0] == "rawquery" else None})
         else:
             raise ValueError(op)
